@@ -227,6 +227,49 @@ def access_records(rng):
     return out
 
 
+def accum_records(rng, tier):
+    """operation histories on the two k-mer accumulators"""
+    from gambit.sigs.calc import ArrayAccumulator, SetAccumulator
+    from ..enc import digits4
+    recs = []
+    for kind, cls in (('array', ArrayAccumulator), ('set', SetAccumulator)):
+        for k in (1, 2, 4, 5, 8, 9) + ((16, 17, 32) if kind == 'set' else ()):
+            for rep in range(6 if tier == 'quick' else 40):
+                acc = cls(k)
+                top = 4 ** k - 1
+                pool = sorted({0, top, rng.randint(0, top), rng.randint(0, top), top // 2})
+                ops, obs = [], []
+                for _ in range(rng.randint(0, 10)):
+                    o = rng.choice(['add', 'add', 'discard', 'contains', 'clear', 'add_kmer', 'add_kmer'])
+                    v = rng.choice(pool)
+                    if o == 'add_kmer':
+                        L = k if rng.random() < 0.8 else rng.choice([max(0, k - 1), k + 1])
+                        kmer = bytes(rng.choice(b'ACGTacgtN') for _ in range(L))
+                        op = dict(o=o, kmer=list(kmer), k=k, v=[])
+                        try:
+                            acc.add_kmer(kmer); res = 'ok'
+                        except ValueError:
+                            res = 'ValueError'
+                    else:
+                        op = dict(o=o, v=digits4(v, k), kmer=[], k=k)
+                        if o == 'add':
+                            acc.add(v); res = 'ok'
+                        elif o == 'discard':
+                            acc.discard(v); res = 'ok'
+                        elif o == 'contains':
+                            res = 'yes' if (v in acc) else 'no'
+                        else:
+                            acc.clear(); res = 'ok'
+                    ops.append(op)
+                    obs.append(dict(obs=res, n=int(len(acc))))
+                sig = np.asarray(acc.signature())
+                recs.append(dict(op='accum', kind=kind, k=k, ops=ops, obs=obs, members=[digits4(int(x), k) for x in acc],
+                                 sig=[digits4(int(x), k) for x in sig], width=int(sig.dtype.itemsize), kindc=str(sig.dtype.kind)))
+    for r in recs:
+        r['kind'], r['acc'] = r.pop('kindc'), r['kind']
+    return recs
+
+
 class _ClosedRead(Exception):
     pass
 
@@ -389,6 +432,7 @@ def run(ctx):
                 recs.append(paramgroup_record(list(present), ex, rq))
     recs += progress_records(rng)
     recs += access_records(rng)
+    recs += accum_records(rng, ctx.tier)
     import shutil
     tmp = tlc.mktmp('ext-')
     try:
